@@ -309,7 +309,8 @@ def check_runs(case):
 
   def entry_hook(test_api, inv, plugs):
     st_ = dict(test_api.state)
-    unset = all(m.outcome.name == 'UNSET' for m in test_api.measurements._measurements.values())  # pylint: disable=protected-access
+    # (a monitor's own measurement may already hold its first sample when the body starts)
+    unset = all(m.outcome.name == 'UNSET' for k_, m in test_api.measurements._measurements.items() if not k_.startswith('mon_p'))  # pylint: disable=protected-access
     entry_obs.append((len(st_), unset))
     test_api.state['seen'] = test_api.state.get('seen', 0) + 1
     # nested (mutable) metadata the Test was declared with: seen pristine, then modified in place through the record
